@@ -19,7 +19,7 @@ RULE = ('case = 1..6 base stations above the floor, misalignment rotation 0..30 
         '(seed, flip class, noise) systems evaluated.')
 ASSUMPTIONS = ['noise-free exactness tolerance 1e-4 m / 1e-4 rad (measured worst values in the evidence)',
                'with noise only rigidity, properness and a 10-sigma bound on the mapped reference points are required']
-REQUIRED = ['mon.align_noise_free', 'mon.align_noisy', 'mon.align_mirror_cases', 'mon.rigidity_pairs', 'mon.scale_fixed_point', 'mon.scale_fixed_point_off_direction',
+REQUIRED = ['mon.alignments_with_the_samples_in_arrays_or_tuples', 'mon.align_noise_free', 'mon.align_noisy', 'mon.align_mirror_cases', 'mon.rigidity_pairs', 'mon.scale_fixed_point', 'mon.scale_fixed_point_off_direction',
             'mon.scale_diagonals', 'mon.inputs_unchanged', 'mon.misalignment_25_to_30_deg', 'mon.scale_with_repeated_pose_objects']
 
 
@@ -69,6 +69,13 @@ def run(desc, ctx):
         bs_c = {i: Pose(Rm @ rm['bs'][i][0], to_c(rm['bs'][i][1])) for i in rm['ids']}
         snapshot = ({i: (p.rot_matrix.copy(), p.translation.copy()) for i, p in bs_c.items()}, origin.copy(),
                     [x.copy() for x in xs], [p.copy() for p in ps])
+        container = ('list', 'list', 'array', 'tuple')[(desc['seed'] + it) % 4]
+        if container == 'array':
+            xs, ps = np.array(xs), np.array(ps)      # the samples as N x 3 arrays
+            ctx.count('mon.alignments_with_the_samples_in_arrays_or_tuples')
+        elif container == 'tuple':
+            xs, ps = tuple(xs), tuple(ps)
+            ctx.count('mon.alignments_with_the_samples_in_arrays_or_tuples')
         ctx.evals()
         ctx.nontrivial((desc['seed'], it, flip, sigma))
         if 25 <= math.degrees(angle) < 30:
@@ -85,6 +92,7 @@ def run(desc, ctx):
         ctx.count('mon.inputs_unchanged')
         same = all(np.array_equal(bs_c[i].rot_matrix, snapshot[0][i][0]) and np.array_equal(bs_c[i].translation, snapshot[0][i][1])
                    for i in bs_c) and np.array_equal(origin, snapshot[1]) and \
+            len(xs) == len(snapshot[2]) and len(ps) == len(snapshot[3]) and \
             all(np.array_equal(a, b) for a, b in zip(xs, snapshot[2])) and all(np.array_equal(a, b) for a, b in zip(ps, snapshot[3]))
         if not same:
             ctx.violate('align:inputs-modified', ctxd, replay=rp)
